@@ -205,6 +205,9 @@ class ThreadingShim:
         ident = self.ident_of(t) if self.ident_of else t.vident
         return _VThread(ident, t.name)
 
+    def get_ident(self):
+        return self.current_thread().ident
+
     def __getattr__(self, name):
         return getattr(_real_threading, name)
 
